@@ -49,6 +49,19 @@ class TokPure(Pure):
         self.ignored_writes = set(self.IGNORED_WRITES)
         self.reads = 0
         self.case_frame = None
+        self.in_alt = False
+        self.alt_conts = []
+        self.first_cont = None
+        self.loop_entries = {}
+        self.fresh_at_read = 0
+        self.gen_ret = None      # the generator's own result function (a read may sit inside an inlined helper)
+
+    def callee_env(self, fn, call, env, binds):
+        cenv = super().callee_env(fn, call, env, binds)
+        for kk, vv in env.items():
+            if kk.startswith("#"):
+                cenv[kk] = vv      # what the generator has emitted so far and its loop continuations stay in reach
+        return cenv
 
     def expr(self, e, env, binds):
         # class constants: the four automaton states (must be distinct ints, checked by the caller)
@@ -82,6 +95,9 @@ class TokPure(Pure):
                 return V(t if isinstance(e.ops[0], ast.In) else "(negb %s)" % t, "bool")
         if isinstance(e, ast.List) and not e.elts:
             return V("[]", "bytes")
+        if isinstance(e, ast.List) and e.elts:
+            # a non-empty list literal is only ever used as an immutable collection of constants here (membership tests)
+            return self.expr(ast.copy_location(ast.Tuple(elts=e.elts, ctx=ast.Load()), e), env, binds)
         if isinstance(e, ast.Compare) and len(e.ops) == 1 and isinstance(e.ops[0], (ast.Eq, ast.NotEq)):
             a = self.expr(e.left, env, binds)
             if a.ty == "astate":
@@ -118,18 +134,42 @@ class TokPure(Pure):
                 and isinstance(stmts[0].targets[0].value, ast.Name) and stmts[0].targets[0].value.id == "self" \
                 and stmts[0].targets[0].attr in self.ignored_writes:
             return self.block(stmts[1:], env, k)
-        # ---- generator statements of _iter_tokens (one turn of the loop)
+        # ---- generator statements of _iter_tokens.  One *turn* = the code run from a read of the source (exclusive) to the next
+        # read (exclusive) or to the end of the generator; every read site must be followed by the same code.
         if stmts and isinstance(stmts[0], ast.Assign) and isinstance(stmts[0].value, ast.Call) and isinstance(stmts[0].value.func, ast.Attribute) \
                 and stmts[0].value.func.attr == "read" and isinstance(stmts[0].value.func.value, ast.Name) and stmts[0].value.func.value.id in env \
                 and env[stmts[0].value.func.value.id].ty == "source":
-            if self.reads or not isinstance(stmts[0].targets[0], ast.Name):
-                bad(stmts[0], "the source must be read exactly once per turn of the loop")
-            self.reads += 1
-            env = dict(env); env[stmts[0].targets[0].id] = self.case_frame
-            try:
-                return self.block(stmts[1:], env, k)
-            finally:
-                self.reads -= 1
+            if not isinstance(stmts[0].targets[0], ast.Name) or len(stmts[0].targets) != 1:
+                bad(stmts[0], "the frame read must be bound to a name")
+            tgt = stmts[0].targets[0].id
+            if not self.reads:
+                self.reads += 1
+                self.fresh_at_read = self.fresh
+                env = dict(env); env[tgt] = self.case_frame
+                try:
+                    t = self.block(stmts[1:], env, k)
+                    self.first_cont = t
+                    return t
+                finally:
+                    self.reads -= 1
+            # a second read: the turn ends here. What follows this read must be what follows the first one (checked by
+            # translating it from a fresh state and comparing the text, see emit()).
+            if not self.in_alt:
+                saved = (self.fresh, dict(self.loop_entries), self.valid_calls)
+                self.in_alt = True
+                try:
+                    self.fresh = self.fresh_at_read
+                    self.loop_entries = {}
+                    fenv = {kk: vv for kk, vv in env.items() if kk in ("#after_loop", "#loop_again") or (not kk.startswith("#") and getattr(vv, "ty", None) == "source")}
+                    fenv["#emitted"] = []
+                    for attr, getter, ty in STATE:
+                        fenv["self." + attr] = V(getter, ty)
+                    fenv[tgt] = self.case_frame
+                    self.alt_conts.append((stmts[0].lineno, self.block(stmts[1:], fenv, k)))
+                finally:
+                    self.in_alt = False
+                    self.fresh, self.loop_entries, self.valid_calls = saved
+            return (self.gen_ret or self.spec.ret)(self, V("true", "flag"), env, stmts[0])
         if stmts and isinstance(stmts[0], ast.Expr) and isinstance(stmts[0].value, ast.Yield):
             binds = []
             v = self.expr(stmts[0].value.value, env, binds)
@@ -138,15 +178,46 @@ class TokPure(Pure):
             env = dict(env); env["#emitted"] = env["#emitted"] + ["(%s, %s, %s)" % tuple(x.text for x in v.const)]
             return self.block(stmts[1:], env, k)
         if stmts and isinstance(stmts[0], ast.Break):
+            if "#after_loop" not in env:
+                bad(stmts[0], "break outside a loop")
             return env["#after_loop"](env)
-        if stmts and isinstance(stmts[0], ast.While):
+        if stmts and isinstance(stmts[0], ast.Continue):
+            if "#loop_again" not in env:
+                bad(stmts[0], "continue outside a loop")
+            return env["#loop_again"](env)
+        if stmts and isinstance(stmts[0], ast.While) and "#emitted" in env:
             w = stmts[0]
-            if not (isinstance(w.test, ast.Constant) and w.test.value is True) or w.orelse:
-                bad(w, "expected `while True:`")
-            after = stmts[1:]
-            env = dict(env)
-            env["#after_loop"] = lambda e2: self.block(after, e2, lambda e3: self.spec.ret(self, V("false", "flag"), e3, w))
-            return self.block(list(w.body), env, lambda e2: self.spec.ret(self, V("true", "flag"), e2, w))
+            if w.orelse:
+                bad(w, "while ... else")
+            self.loop_entries[id(w)] = self.loop_entries.get(id(w), 0) + 1
+            if self.loop_entries[id(w)] > 3:
+                bad(w, "a turn of the loop that reads no frame")
+            rest = stmts[1:]
+            outer_after, outer_again = env.get("#after_loop"), env.get("#loop_again")
+
+            def restore(e2):
+                e2 = dict(e2)
+                for key, val in (("#after_loop", outer_after), ("#loop_again", outer_again)):
+                    if val is None:
+                        e2.pop(key, None)
+                    else:
+                        e2[key] = val
+                return e2
+            k_after = lambda e2: self.block(rest, restore(e2), k)
+            k_again = lambda e2: self.block(stmts, restore(e2), k)
+            env = dict(env); env["#after_loop"] = k_after; env["#loop_again"] = k_again
+            try:
+                if isinstance(w.test, ast.Constant) and w.test.value is True:
+                    return self.block(list(w.body), env, k_again)
+                binds = []
+                t = self.truthy(w.test, self.expr(w.test, env, binds))
+                if binds:
+                    bad(w, "partial conversion in a loop test")
+                if t.has_const:
+                    return self.block(list(w.body), env, k_again) if t.const else k_after(env)
+                return "(if %s then %s else %s)" % (t.text, self.block(list(w.body), env, k_again), k_after(env))
+            finally:
+                self.loop_entries[id(w)] -= 1
         # self._data.append(frame)
         if stmts and isinstance(stmts[0], ast.Expr) and isinstance(stmts[0].value, ast.Call) and isinstance(stmts[0].value.func, ast.Attribute) \
                 and stmts[0].value.func.attr == "append":
@@ -177,8 +248,47 @@ def emit(core_py):
     vals = [consts.get(a) for a in ASTATES]
     if None in vals or len(set(vals)) != 4:
         raise TranslationError("automaton state constants missing or not distinct: %r" % vals)
+    # ---- private attributes under other names: which one plays which part of the model's state is found by running the class
+    used = {n.attr for n in ast.walk(cls) if isinstance(n, ast.Attribute) and isinstance(n.value, ast.Name) and n.value.id == "self"}
+    canonical = [a for a, _, _ in STATE] + ["_strict_min_length", "_drop_trailing_silence"]
+    renamed = {}
+    if any(a not in used for a in canonical):
+        import json
+        import os
+        from . import tokroles
+        try:
+            traces = json.load(open(os.path.join(os.path.dirname(os.path.abspath(__file__)), "tok_roles.json")))
+            renamed = tokroles.infer(os.path.dirname(os.path.dirname(os.path.abspath(core_py))), traces)
+        except Exception as e:
+            raise TranslationError("private attributes renamed and their roles could not be inferred: %s: %s" % (type(e).__name__, e))
+
+        class Ren(ast.NodeTransformer):
+            def visit_Attribute(self, n):
+                self.generic_visit(n)
+                if isinstance(n.value, ast.Name) and n.value.id == "self" and n.attr in renamed:
+                    n.attr = renamed[n.attr]
+                return n
+        Ren().visit(cls)
     meths = {n.name: n for n in cls.body if isinstance(n, ast.FunctionDef)}
+    # ---- the generator behind tokenize() and the method that resets the automaton, whatever they are called
+    tokenize = meths.get("tokenize")
+    if tokenize is None:
+        raise TranslationError("method tokenize not found")
+    gens = [m for m in meths.values() if any(isinstance(x, (ast.Yield, ast.YieldFrom)) for x in ast.walk(m))
+            and any(isinstance(c, ast.Call) and ast.unparse(c.func) == "self." + m.name for c in ast.walk(tokenize))]
+    if len(gens) != 1:
+        raise TranslationError("tokenize() does not call exactly one generator method of the class (%r)" % [g.name for g in gens])
+    meths["_iter_tokens"] = gens[0]
+    gb = Pure.body_of(gens[0])
+    if gb and isinstance(gb[0], ast.Expr) and isinstance(gb[0].value, ast.Call) and isinstance(gb[0].value.func, ast.Attribute) \
+            and isinstance(gb[0].value.func.value, ast.Name) and gb[0].value.func.value.id == "self" and not gb[0].value.args and not gb[0].value.keywords \
+            and gb[0].value.func.attr in meths:
+        reinit_name = gb[0].value.func.attr
+        meths["_reinitialize"] = meths[reinit_name]
+    else:
+        raise TranslationError("the generator behind tokenize() must start by resetting the automaton (self.<method>())")
     out = ["(* generated from auditok/core.py (StreamTokenizer automaton methods, generic engine) - do not edit *)",
+           "(* private attributes read under other names: %s *)" % (", ".join("%s as %s" % kv for kv in sorted(renamed.items())) or "none"),
            "From Coq Require Import ZArith List Bool.", "From AV Require Import Base.PyList Tok.Model.", "Import ListNotations.", "Open Scope Z_scope.", "",
            "Definition nonempty {T} (l : list T) : bool := match l with [] => false | _ => true end.", "",
            "Section Gen.", "Context {B : Type}.", ""]
@@ -187,17 +297,28 @@ def emit(core_py):
         sp = Spec(name, params, ret, self_attrs=dict(CONFIG), state=STATE)
         sp.extra_params = extra
         return sp
+    aux_missing = []
+    aux_out = []
     for py, coq, params, ret, extra, rt in (
             ("_reinitialize", "reinit2", [], ret_state, ["(s : st B)"], "st B"),
             ("_process_end_of_detection", "eod2", [("truncated", "bool")], ret_tok, ["(c : config)", "(s : st B)"], "st B * option (token B)"),
             ("_process", "process2", [("frame", "elem")], ret_tok, ["(c : config)", "(s : st B)"], "st B * option (token B)"),
             ("_post_process", "post_process2", [], ret_tok, ["(c : config)", "(s : st B)"], "st B * option (token B)")):
         if py not in meths:
-            raise TranslationError("method %s not found" % py)
+            if py == "_reinitialize":
+                raise TranslationError("method %s not found" % py)
+            aux_missing.append(py)
+            continue
         sp = spec(coq, params, ret, extra)
         sp.ret_type = rt
         tr = TokPure(meths[py], sp, tree, cls)
-        out.append(_translate(tr, py))
+        try:
+            (out if py == "_reinitialize" else aux_out).append(_translate(tr, py))
+        except TranslationError:
+            if py == "_reinitialize":
+                raise
+            aux_missing.append(py)       # the intermediate methods are optional: what counts is one turn of the generator
+            continue
         if py == "_process" and tr.valid_calls != 1:
             raise TranslationError("_process calls the validator %d times (exactly once per frame expected)" % tr.valid_calls)
     # ---- one turn of the loop of _iter_tokens, for a frame and for end of stream (helper methods inlined)
@@ -205,29 +326,48 @@ def emit(core_py):
     if it is None:
         raise TranslationError("method _iter_tokens not found")
     body = Pure.body_of(it)
-    if not (body and isinstance(body[0], ast.Expr) and isinstance(body[0].value, ast.Call) and ast.unparse(body[0].value) == "self._reinitialize()"):
+    if not (body and isinstance(body[0], ast.Expr) and isinstance(body[0].value, ast.Call) and ast.unparse(body[0].value) == "self.%s()" % reinit_name):
         raise TranslationError("_iter_tokens must start with self._reinitialize()")
     src_name = [a.arg for a in it.args.args if a.arg != "self"]
     if len(src_name) != 1:
         raise TranslationError("_iter_tokens signature")
 
     def ret_iter(tr, v, env, node):
+        if v.ty == "none" and isinstance(node, ast.Return) and node.value is None:
+            # a bare `return` ends the generator: nothing after the loop runs, no further frame is read
+            return "(%s, [%s], false)" % (st_text(env), "; ".join(env["#emitted"]))
         if v.ty != "flag":
-            bad(node, "return inside the generator loop")
+            bad(node, "return of a value inside the generator loop")
         return "(%s, [%s], %s)" % (st_text(env), "; ".join(env["#emitted"]), v.text)
     cases = []
     for frame_v in (NONE, V("f", "elem")):
         sp = spec("iter_step2", [], ret_iter, [])
         tr = TokPure(it, sp, tree, cls)
         tr.case_frame = frame_v
+        tr.gen_ret = ret_iter
         env = {src_name[0]: V("", "source"), "#emitted": []}
         for attr, getter, ty in STATE:
             env["self." + attr] = V(getter, ty)
-        cases.append(tr.block(body[1:], env, lambda e2: bad(it, "_iter_tokens ends without a loop")))
+        cases.append(tr.block(body[1:], env, lambda e2: sp.ret(tr, V("false", "flag"), e2, it)))
+        if tr.first_cont is None:
+            raise TranslationError("_iter_tokens never reads its source")
+        if cases[-1] != tr.first_cont:
+            raise TranslationError("_iter_tokens does something between _reinitialize() and the first read of the source")
+        for lineno, alt in tr.alt_conts:
+            if alt != tr.first_cont:
+                import os as _os
+                if _os.environ.get("TOK2_DEBUG"):
+                    open("/tmp/t2/first.txt", "w").write(tr.first_cont); open("/tmp/t2/alt.txt", "w").write(alt)
+                raise TranslationError("the code that follows the read of the source at line %d differs from the code that follows the first read" % lineno)
         if frame_v.ty == "elem" and tr.valid_calls != 1:
             raise TranslationError("one turn of _iter_tokens calls the validator %d times (exactly once per frame expected)" % tr.valid_calls)
     out.append("Definition iter_step2 (c : config) (s : st B) (fr : option (B * bool)) : st B * list (token B) * bool :=\n"
                "  match fr with\n  | None => %s\n  | Some (f, v) => %s\n  end.\n" % (cases[0], cases[1]))
+    if not aux_missing:
+        out.append("(* AUX: the intermediate methods, translated one by one *)")
+        out.extend(aux_out)
+    else:
+        out.append("(* intermediate methods not translated separately: %s *)" % ", ".join(aux_missing))
     out.append("End Gen.\n")
     # ---- the constructor's validation chain and _set_mode
     init = meths.get("__init__")
